@@ -203,7 +203,7 @@ def run(ctx):
                     ctx.regime('has_ties')
             i += 1
     # sampled longer vectors
-    n_long = (320 if ctx.quick else 4800) // ctx.nshards
+    n_long = (320 if ctx.quick else 40000) // ctx.nshards
     for j in range(n_long):
         n = int(rng.choice([nmax + 1, 8, 30, 120, 500]))
         kind = rng.random()
